@@ -106,6 +106,10 @@ fn draw_params(rng: &mut Prng) -> (f64, f64, f64) {
 }
 
 fn draw_mode(rng: &mut Prng) -> Mode {
+    if rng.chance(1, 12) {
+        // a run of forced rejections: short, around powers of two, and long
+        return Mode::RejectRun { call: 0, rounds: *rng.pick(&[1u64, 2, 7, 8, 15, 16, 31, 32, 33, 63, 64, 65, 100, 127, 128, 129, 255, 256, 257, 1000]) };
+    }
     match rng.below(10) {
         0..=3 => Mode::Uniform,
         4..=7 => Mode::TieAt {
@@ -632,6 +636,8 @@ pub fn replay(doc: &Value) -> Option<String> {
             let modes = doc.get("mode").and_then(|m| m.as_str()).unwrap_or("");
             let mode = if modes.starts_with("TieAt") {
                 Mode::TieAt { call: 0, iter: 0, depth: 0, dir: 0 }
+            } else if modes.starts_with("RejectRun") {
+                Mode::RejectRun { call: 0, rounds: 0 }
             } else if modes.starts_with("TableAt") {
                 Mode::TableAt { call: 0, entry: 0, delta: 0 }
             } else {
@@ -758,7 +764,7 @@ pub fn check(tier: Tier, seed: u64) -> i32 {
     let out = report::parallel_runs(runs + ncfg as u64 * chunks, w, |run| dispatch(tier, seed, run));
     rep.absorb(out);
     evaluate_law(&mut rep);
-    rep.rule = "a case is one call of sampler_z (through the H4 wrapper) on a simulator-owned byte stream in mode E1 (uniform), E2 (Bernoulli bytes forced to tie with the comparand on 1..7 bytes, then +-1) or E3 (base-sampler bytes at RCDT[i]-1/RCDT[i]/RCDT[i]+1, 0, 2^72-1), judged in lock-step by the reference SamplerZ over the bytes actually consumed; or one call of base_sampler / approx_exp / ber_exp through the wrappers, compared with the reference on integers; or one of the fixed (mu, sigma') law configurations sampled over uniform streams; non-trivial = a faulted stream, a tie of depth >= 2, or a building-block input; distinct = distinct (parameters, consumed bytes)".to_string() + &report::distinct_rule_suffix();
+    rep.rule = "a case is one call of sampler_z (through the H4 wrapper) on a simulator-owned byte stream in mode E1 (uniform), E2 (Bernoulli bytes forced to tie with the comparand on 1..7 bytes, then +-1), E6 (1..1000 consecutive forced rejections, then uniform) or E3 (base-sampler bytes at RCDT[i]-1/RCDT[i]/RCDT[i]+1, 0, 2^72-1), judged in lock-step by the reference SamplerZ over the bytes actually consumed; or one call of base_sampler / approx_exp / ber_exp through the wrappers, compared with the reference on integers; or one of the fixed (mu, sigma') law configurations sampled over uniform streams; non-trivial = a faulted stream, a tie of depth >= 2, or a building-block input; distinct = distinct (parameters, consumed bytes)".to_string() + &report::distinct_rule_suffix();
     rep.assumptions = vec![
         "reference RCDT and ApproxExp constants are those of the reference C implementation (PQClean sign.c / fpr.c), the algorithms those of specification Alg. 12-15".into(),
         "float prologue ambiguity (x/ln2 vs x*(1/ln2), last-ulp differences in x) is tolerated: a decision is binding only if it is the same for x and its float neighbours".into(),
